@@ -60,6 +60,9 @@ type c08In struct {
 	// Pre: the earlier steps of the SAME transaction (same StateDB / EVM), run in order before the call
 	// under test: other precompile calls and EVM state changes.
 	Pre []c08Step `json:"pre,omitempty"`
+	// Token: how the registered hostile ERC20 (world.hostile) answers balanceOf / transfer / … during this case;
+	// configured by a committed call of its configure() before the transaction starts
+	Token *c08Token `json:"token,omitempty"`
 }
 
 // c08Step is one earlier step of the transaction: a precompile call (Evm == "") or an EVM state change
@@ -109,20 +112,22 @@ type c08MsgArg struct {
 }
 
 type c08Obs struct {
-	Reached  bool         `json:"reached"`
-	Class    string       `json:"class"`
-	Left     uint64       `json:"left"`
-	Fwd      uint64       `json:"fwd"`
-	StateEq  bool         `json:"state_eq"`
-	CoreEq   bool         `json:"core_eq"`
-	PanicOOG bool         `json:"panic_oog"`
-	Cost     string       `json:"cost"`      // gas the same call consumes with ample gas (forwarded − handed back) when it succeeds then; "" otherwise
-	PanicInt bool         `json:"panic_int"` // sdkmath "integer overflow" (bank supply beyond 256 bits)
-	Method   string       `json:"method"`
-	UnpackOK bool         `json:"unpack_ok"`
-	Args     []c08Arg     `json:"args"`
-	Note     string       `json:"note,omitempty"` // first words of the error / panic (not compared)
-	Pre      []c08StepObs `json:"pre,omitempty"`
+	Reached  bool   `json:"reached"`
+	Class    string `json:"class"`
+	Left     uint64 `json:"left"`
+	Fwd      uint64 `json:"fwd"`
+	StateEq  bool   `json:"state_eq"`
+	CoreEq   bool   `json:"core_eq"`
+	PanicOOG bool   `json:"panic_oog"`
+	Cost     string `json:"cost"`      // gas the same call consumes with ample gas (forwarded − handed back) when it succeeds then; "" otherwise
+	PanicInt bool   `json:"panic_int"` // sdkmath "integer overflow" (bank supply beyond 256 bits)
+	// PanicSlice: Go runtime "slice bounds out of range" / "index out of range"
+	PanicSlice bool         `json:"panic_slice,omitempty"`
+	Method     string       `json:"method"`
+	UnpackOK   bool         `json:"unpack_ok"`
+	Args       []c08Arg     `json:"args"`
+	Note       string       `json:"note,omitempty"` // first words of the error / panic (not compared)
+	Pre        []c08StepObs `json:"pre,omitempty"`
 	// DropEq: the same transaction without its FAILED earlier calls commits the same state and gives the call
 	// under test the same outcome class (true when there is no failed earlier call, or the StateDB's budget
 	// of calls - which failed calls use up too - is involved)
@@ -305,8 +310,19 @@ type txRun struct {
 	nEvm   int
 }
 
-func (w *world) newTx() *txRun {
+func (w *world) newTx(tok ...*c08Token) *txRun {
 	cctx, _ := w.deps.Ctx.CacheContext()
+	if len(tok) == 1 && tok[0] != nil {
+		cfg := w.deps.EvmKeeper.NewStateDB(cctx, statedb.NewEmptyTxConfig(gethcommon.Hash{}))
+		cfgEvm := w.deps.EvmKeeper.NewEVM(cctx, evmtest.MOCK_GETH_MESSAGE, w.deps.EvmKeeper.GetEVMConfig(cctx), &frameTracer{}, cfg)
+		cfg.PrepareAccessList(w.deps.Sender.EthAddr, &w.hostile, cfgEvm.ActivePrecompiles(params.Rules{}), nil)
+		if _, _, err := cfgEvm.Call(vm.AccountRef(w.deps.Sender.EthAddr), w.hostile, tok[0].configCalldata(), 1_000_000, big.NewInt(0)); err != nil {
+			panic("configure hostile token: " + err.Error())
+		}
+		if err := cfg.Commit(); err != nil {
+			panic("configure hostile token: " + err.Error())
+		}
+	}
 	sdb := w.deps.EvmKeeper.NewStateDB(cctx, statedb.NewEmptyTxConfig(gethcommon.Hash{}))
 	ft := &frameTracer{}
 	evmObj := w.deps.EvmKeeper.NewEVM(cctx, evmtest.MOCK_GETH_MESSAGE, w.deps.EvmKeeper.GetEVMConfig(cctx), ft, sdb)
@@ -391,6 +407,7 @@ func (t *txRun) call(pc int, kind, valueStr string, gas uint64, dataHex string) 
 		_, obs.PanicOOG = pval.(storetypes.ErrorOutOfGas)
 		obs.Note = note(fmt.Sprintf("%T %v", pval, pval))
 		obs.PanicInt = strings.Contains(obs.Note, "integer overflow")
+		obs.PanicSlice = strings.Contains(obs.Note, "slice bounds out of range") || strings.Contains(obs.Note, "index out of range")
 		obs.Fwd = gas
 		for _, f := range frames {
 			if f.To == pcAddr {
@@ -469,14 +486,14 @@ func (w *world) runOnce(in c08In) (c08In, c08Obs) {
 	if len(in.Pre) > 0 {
 		// "state as before the call" = what the same transaction commits when it ends right before the call
 		// (one StateDB at a time: the keeper's bank wrapper mirrors balance changes into the latest one)
-		t0 := w.newTx()
+		t0 := w.newTx(in.Token)
 		if _, p, _ := t0.runPre(in.Pre); p < 0 {
 			if cerr := t0.sdb.Commit(); cerr == nil {
 				d0, c0 = w.digests(t0.ctx, caller, pcAddr)
 			}
 		}
 	}
-	t := w.newTx()
+	t := w.newTx(in.Token)
 	if len(in.Pre) == 0 {
 		d0, c0 = w.digests(t.ctx, caller, pcAddr)
 	} else {
@@ -518,7 +535,7 @@ func (w *world) runOnce(in c08In) (c08In, c08Obs) {
 		kept = append(kept, st)
 	}
 	if dropped > 0 && calls <= callBudget {
-		t2 := w.newTx()
+		t2 := w.newTx(in.Token)
 		obs.DropEq = false
 		if _, p, _ := t2.runPre(kept); p < 0 {
 			o2 := t2.call(in.PC, in.Kind, in.Value, in.Gas, in.Data)
@@ -920,8 +937,150 @@ func (g *gen) kindValue() (string, *big.Int) {
 	return kind, value
 }
 
+// ---------------------------------------------------------------- answers of the contract a precompile calls
+
+var (
+	selPanic = []byte{0x4e, 0x48, 0x7b, 0x71} // Panic(uint256)
+	selError = []byte{0x08, 0xc3, 0x79, 0xa0} // Error(string)
+)
+
+func validErrorPayload(msg string) []byte {
+	out := append([]byte{}, selError...)
+	out = append(out, word(big.NewInt(32))...)
+	out = append(out, word(big.NewInt(int64(len(msg))))...)
+	return append(out, gethcommon.RightPadBytes([]byte(msg), (len(msg)+31)/32*32)...)
+}
+
+func tok(mode int, data []byte, length ...uint64) *c08Token {
+	if len(data) > 160 {
+		data = data[:160]
+	}
+	l := uint64(len(data))
+	if len(length) == 1 {
+		l = length[0]
+	}
+	return &c08Token{Mode: mode, Len: l, Data: hex.EncodeToString(data)}
+}
+
+// tokenCfg: what the registered ERC20 answers to balanceOf / transfer / …: reverts with arbitrary revert data
+// (empty, 1-3 bytes, bare Error(string) / Panic(uint256) selectors, those selectors with payloads of every length
+// 4..40, valid payloads, over-long payloads, zero-padded lengths, random bytes), returns malformed data (empty,
+// short, non-boolean, huge) or well-formed data, or consumes all gas
+func (g *gen) tokenCfg() *c08Token {
+	fill := func(n int) []byte {
+		if g.r.Chance(1, 2) {
+			return make([]byte, n)
+		}
+		return g.randBytes(n)
+	}
+	switch g.r.Pick(64, 28, 8) {
+	case 1:
+		switch g.r.Pick(12, 14, 10, 12, 12, 10, 10, 10, 10) {
+		case 0:
+			return tok(1, nil)
+		case 1:
+			return tok(1, g.randBytes(g.r.Range(1, 31)))
+		case 2:
+			return tok(1, word(big.NewInt(0)))
+		case 3:
+			return tok(1, word(big.NewInt(1)))
+		case 4:
+			return tok(1, word(big.NewInt(int64(g.r.Range(2, 255)))))
+		case 5:
+			return tok(1, bytes.Repeat([]byte{0xff}, 32))
+		case 6:
+			return tok(1, g.randBytes(g.r.Range(33, 160)))
+		case 7:
+			return tok(1, word(big.NewInt(1)), uint64(g.r.Range(161, 100_000)))
+		}
+		return tok(1, g.randBytes(32))
+	case 2:
+		return tok(2, nil)
+	}
+	switch g.r.Pick(6, 8, 8, 8, 22, 10, 8, 8, 8, 6, 8) {
+	case 0:
+		return tok(0, nil)
+	case 1:
+		return tok(0, g.randBytes(g.r.Range(1, 3)))
+	case 2:
+		return tok(0, selError)
+	case 3:
+		return tok(0, selPanic)
+	case 4: // Panic(uint256) selector with a payload of every length 4..40
+		return tok(0, append(append([]byte{}, selPanic...), fill(g.r.Range(0, 36))...))
+	case 5: // Error(string) selector, truncated ABI payloads
+		v := validErrorPayload("insufficient balance")
+		return tok(0, v[:g.r.Range(4, len(v))])
+	case 6: // valid Panic payloads: known / unknown / huge codes
+		code := []*big.Int{big.NewInt(0x11), big.NewInt(0x01), big.NewInt(0x7777), two256m1, new(big.Int).Lsh(big.NewInt(1), 64)}[g.r.Intn(5)]
+		return tok(0, append(append([]byte{}, selPanic...), word(code)...))
+	case 7:
+		return tok(0, validErrorPayload(g.pick("boom", "", "ERC20: transfer amount exceeds balance", strings.Repeat("x", 90))))
+	case 8: // over-long: a valid payload followed by more
+		base := append(append([]byte{}, selPanic...), word(big.NewInt(0x12))...)
+		if g.r.Chance(1, 2) {
+			base = validErrorPayload("boom")
+		}
+		return tok(0, append(base, fill(g.r.Range(1, 60))...), uint64(len(base)+g.r.Range(1, 4000)))
+	case 9: // Error(string) with hostile offset / length words
+		out := append([]byte{}, selError...)
+		out = append(out, [][]byte{word(big.NewInt(32)), bytes.Repeat([]byte{0xff}, 32), word(big.NewInt(1 << 40))}[g.r.Intn(3)]...)
+		out = append(out, [][]byte{word(big.NewInt(4)), bytes.Repeat([]byte{0xff}, 32), word(new(big.Int).Lsh(big.NewInt(1), 63))}[g.r.Intn(3)]...)
+		return tok(0, append(out, g.randBytes(32)...))
+	}
+	return tok(0, g.randBytes(g.r.Range(4, 160)))
+}
+
+// hostileCall: a FunToken method that reaches the registered hostile ERC20
+func (g *gen) hostileCall() (data string, name string) {
+	w := g.w
+	to := g.pick(w.other.Hex(), eth.EthAddrToNibiruAddr(w.other).String())
+	amt := big.NewInt(int64(g.r.Range(1, 900)))
+	switch g.r.Pick(40, 35, 25) {
+	case 0:
+		return g.packed(0, "balance", g.pickAddr(w.other, w.deps.Sender.EthAddr, fwdCall), w.hostile), "balance"
+	case 1:
+		return g.packed(0, "sendToBank", w.hostile, amt, to), "sendToBank"
+	}
+	return g.packed(0, "sendToEvm", w.hostDenom, amt, to), "sendToEvm"
+}
+
+func (g *gen) hostile() c08In {
+	in := g.hostileNoMem()
+	// most hand-written contracts touch no more memory than they answer with; compiled ones have at least 96 bytes
+	switch g.r.Pick(55, 15, 15, 15) {
+	case 1:
+		in.Token.Mem = 96
+	case 2:
+		in.Token.Mem = in.Token.Len + uint64(g.r.Range(1, 40))
+	case 3:
+		in.Token.Mem = uint64(g.r.Range(1, 300))
+	}
+	return in
+}
+
+func (g *gen) hostileNoMem() c08In {
+	data, name := g.hostileCall()
+	kind, value := g.kindValue()
+	bz, _ := hex.DecodeString(data)
+	gas := uint64(3_000_000)
+	if g.r.Chance(1, 4) {
+		gas = g.gasFor(0, bz, value, kind, nil)
+	}
+	in := c08In{PC: 0, Kind: kind, Value: value.String(), Gas: gas, Data: data, Label: "token/" + name, Token: g.tokenCfg()}
+	if g.r.Chance(1, 5) { // behind a query of the same transaction
+		pc, q, _ := g.goodQuery()
+		in.Pre = []c08Step{{PC: pc, Kind: g.pick("static", "top", "call"), Value: "0", Gas: 2_000_000, Data: q}}
+		in.Label = "token/seq>" + name
+	}
+	return in
+}
+
 func (g *gen) one() c08In {
-	if g.r.Chance(38, 100) {
+	if g.r.Chance(14, 100) {
+		return g.hostile()
+	}
+	if g.r.Chance(44, 100) {
 		return g.sequence()
 	}
 	pc := g.r.Pick(50, 30, 20)
@@ -1230,6 +1389,58 @@ func (w *world) openers() []c08In {
 	}
 	if w.storeKeys != nil {
 		out = append(out, w.sequenceOpeners()...)
+		out = append(out, w.tokenOpeners()...)
+	}
+	return out
+}
+
+// tokenOpeners: the FunToken methods that call the registered ERC20, against the hostile token answering with the
+// boundary payloads
+func (w *world) tokenOpeners() []c08In {
+	ft := abiOf(0)
+	hx := func(bz []byte) string { return hex.EncodeToString(bz) }
+	panicWith := func(n int) []byte { return append(append([]byte{}, selPanic...), make([]byte, n)...) }
+	cfgs := []struct {
+		name string
+		tk   *c08Token
+	}{
+		{"revert-empty", tok(0, nil)},
+		{"revert-3-bytes", tok(0, []byte{0x4e, 0x48, 0x7b})},
+		{"revert-bare-panic-selector", tok(0, selPanic)},
+		{"revert-panic-5", tok(0, panicWith(1))},
+		{"revert-panic-35", tok(0, panicWith(31))},
+		{"revert-panic-valid", tok(0, append(append([]byte{}, selPanic...), word(big.NewInt(0x11))...))},
+		{"revert-panic-37", tok(0, panicWith(33))},
+		{"revert-bare-error-selector", tok(0, selError)},
+		{"revert-error-truncated", tok(0, validErrorPayload("boom")[:40])},
+		{"revert-error-valid", tok(0, validErrorPayload("boom"))},
+		{"revert-padded-4000", tok(0, selPanic, 4000)},
+		{"revert-bare-panic-selector-mem96", &c08Token{Mode: 0, Len: 4, Data: hex.EncodeToString(selPanic), Mem: 96}},
+		{"revert-panic-35-mem35", &c08Token{Mode: 0, Len: 35, Data: hex.EncodeToString(panicWith(31)), Mem: 35}},
+		{"revert-panic-20", tok(0, panicWith(16))},
+		{"revert-panic-32", tok(0, panicWith(28))},
+		{"return-empty", tok(1, nil)},
+		{"return-1-byte", tok(1, []byte{1})},
+		{"return-non-bool", tok(1, word(big.NewInt(2)))},
+		{"return-true", tok(1, word(big.NewInt(1)))},
+		{"return-huge", tok(1, word(big.NewInt(1)), 60_000)},
+		{"all-gas", tok(2, nil)},
+	}
+	calls := []struct {
+		data  string
+		kinds []string
+	}{
+		{hx(mustPack(ft, "balance", w.other, w.hostile)), []string{"top", "call", "static"}},
+		{hx(mustPack(ft, "sendToBank", w.hostile, big.NewInt(5), w.other.Hex())), []string{"top", "call"}},
+		{hx(mustPack(ft, "sendToEvm", w.hostDenom, big.NewInt(5), w.other.Hex())), []string{"top", "call"}},
+	}
+	var out []c08In
+	for _, c := range cfgs {
+		for _, m := range calls {
+			for _, k := range m.kinds {
+				out = append(out, c08In{PC: 0, Kind: k, Value: "0", Gas: 3_000_000, Data: m.data, Label: "opener/token-" + c.name, Token: c.tk})
+			}
+		}
 	}
 	return out
 }
